@@ -106,3 +106,54 @@ Proof.
   - eapply backoff_holds; eauto.
   - eapply leave_full_holds; eauto.
 Qed.
+
+(* ---- the member id variable of run is only ever cleared right after a leave attempt for it
+   (since the fix of joinGroup, which used to return "" on error) ---- *)
+Ltac bm_all H :=
+  repeat match type of H with
+         | context [match ?x with _ => _ end] => destruct x eqn:?; try discriminate H
+         | context [if ?x then _ else _] => destruct x eqn:?; try discriminate H
+         end.
+
+Lemma id_cleared_only_after_leave : forall s l s' m,
+  step s l = Some s' -> mid s = Some m -> mid s' = None -> left_since_join m (hist s') = true.
+Proof.
+  intros s l s' m H Hm Hn. unfold step in H. destruct (panicked s); [discriminate|].
+  destruct l;
+    unfold fail_ng, enter_leave, finish_leave, exit_run, after_close, do_start, handler, end_gen,
+           fn_return, option_map in H;
+    cbn [mid ev set_gens set_fns set_pc set_mid set_cgdone set_nexts set_closers set_panic] in H;
+    rewrite ?Hm in H; bm_all H;
+    try (inversion H; subst s'; clear H; cbn [mid ev set_gens set_fns set_pc set_mid set_cgdone set_nexts set_closers set_panic hist] in *;
+         try congruence;
+         match goal with
+         | E : Some _ = Some m |- _ => inversion E; subst; cbn; rewrite Nat.eqb_refl; reflexivity
+         end).
+  all: repeat match goal with
+              | X : context [match ?x with _ => _ end] |- _ => destruct x eqn:?; try discriminate X
+              | X : context [if ?x then _ else _] |- _ => destruct x eqn:?; try discriminate X
+              end.
+  all: repeat (first
+         [ progress (repeat match goal with
+                            | X : (_, _) = (_, _) |- _ => inversion X; clear X
+                            | X : Some _ = Some _ |- _ => inversion X; clear X
+                            end; subst)
+         | progress unfold enter_leave, finish_leave, exit_run in *
+         | progress cbn [mid ev set_gens set_fns set_pc set_mid set_cgdone set_nexts set_closers set_panic hist] in *
+         | match goal with
+           | X : context [match ?x with _ => _ end] |- _ => destruct x eqn:?; try discriminate X
+           | |- context [match ?x with _ => _ end] => destruct x eqn:?
+           end ]).
+  all: try congruence.
+  all: cbn [left_since_join ev_is_leave]; rewrite Nat.eqb_refl; reflexivity.
+Qed.
+
+Lemma joinerr_scenario_leaves : exists s, run (init 0) joinerr_scenario = Some s /\
+  mon_leave_full (hist s) = true /\ In (HCloseRet 0) (hist s) /\
+  (exists post pre, hist s = post ++ HLeaveReq 1 :: pre /\ In (HJoinReq (Some 1)) pre).
+Proof.
+  eexists. split; [vm_compute; reflexivity|]. split; [vm_compute; reflexivity|].
+  split; [cbn; tauto|].
+  exists [HCloseRet 0; HRunExit (XOffer EDropped) None; HCloseCall 0]. eexists. split; [reflexivity|].
+  cbn. tauto.
+Qed.
